@@ -293,7 +293,7 @@ def bu3_pass_through(ctx, rep):
 def bu4_constructors(ctx, rep):
     R = "BU4"
     A = ctx.A
-    want_common = {"without_reducer": "const:false", "capacity": "const:store::DEFAULT_CAPACITY", "state": "param1"}
+    want_common = {"without_reducer": "const:false", "capacity": "const:%s" % ctx.const_lit(("const", "store::DEFAULT_CAPACITY", "usize"))[1], "state": "param1"}
     for name, reducers in (("new", "empty"), ("new_with_reducer", "vec-of-param")):
         b = A.method("StoreBuilder", name)
         rep.note_fn(b.path)
@@ -313,7 +313,7 @@ def bu4_constructors(ctx, rep):
                 if v0 == ("param", 1):
                     return "param1"
                 if v0[0] == "const":
-                    return "const:%s" % v0[1]
+                    return "const:%s" % ctx.const_lit(v0)[1]
                 if v0[0] == "agg" and v0[1] == "vec":
                     if not v0[2]:
                         return "empty"
@@ -324,7 +324,7 @@ def bu4_constructors(ctx, rep):
                 if v0[0] == "call" and v0[2] == "std::default::Default::default":
                     return "default"
                 if v0[0] == "call" and v0 in calls and calls[v0].ck == "std::string::ToString::to_string":
-                    return "string:%s" % calls[v0].args[0][1]
+                    return "string:%s" % ctx.const_lit(calls[v0].args[0])[1]
                 return "other:" + term_str(v)
             exp = dict(want_common)
             exp["reducers"] = reducers
